@@ -118,7 +118,7 @@ def run_job(job, rep):
             rep.reach["undeclared"] += 1
             rep.ob("refuted", f"undeclared:{exc_site(e)}", case, repr(e))
 
-    res, st = core.explore(run, on_path=judge, timeout=job.get("budget", 1500))
+    res, st = core.explore(run, on_path=judge, stop=rep.enough, timeout=job.get("budget", 1500))
     rep.add_stats(st)
 
 
